@@ -477,6 +477,12 @@ func genProgression(o ProgOpts, k0 string) *rapid.Generator[[]PItem] {
 		key := k0
 		var ps []PItem
 		hasChord := false
+		if coin(t, "tacet-intro", 4) {
+			// a long tacet introduction: the first chord comes after dozens of rests
+			for k := rapid.IntRange(30, 140).Draw(t, "tacet-bars"); k > 0; k-- {
+				ps = append(ps, PItem{Rest: true, Vals: []Frac{{4, 1}}})
+			}
+		}
 		for i := 0; i < n; i++ {
 			var p PItem
 			p.Rest = coin(t, "rest", o.RestPct)
